@@ -434,6 +434,7 @@ class BaseTemplateFile(BaseTemplate):
 
     def cook_check(self) -> bool:
         _verif_point("check.begin", template=self)
+        stale = False
         if self.auto_reload:
             mtime = self.mtime()
             _verif_point("check.mtime", template=self, mtime=mtime)
@@ -451,8 +452,12 @@ class BaseTemplateFile(BaseTemplate):
                 _verif_point("check.uncooked", template=self)
                 self._v_last_read = stamp
                 _verif_point("check.last_read_set", template=self)
+                # This caller has seen the modification and must cook,
+                # even if a concurrent cook of an earlier version sets
+                # the flag again in the meantime.
+                stale = True
 
-        if self._cooked is False:
+        if stale or self._cooked is False:
             body = self.read()
             _verif_point("check.read", template=self)
             log.debug("cooking %r (%d bytes)..." % (self.filename, len(body)))
